@@ -17,6 +17,7 @@ from fractions import Fraction
 
 from astutil import strip, OutOfVocabulary, show
 from cfg import path_leaf
+from common import local_refs  # noqa
 from common import C, short
 from facts import AnalysisBroken
 from polyinterp import Poly, Interp, Return, as_poly
@@ -1411,7 +1412,49 @@ def _engine_short(f):
     return "mt19937" if e == "mersenne_twister_engine" else e
 
 
+
+def canonical_default(db, cx):
+    """C15.5 (seeded change c15e): the generic GenerateCanonical (std-style engines, e.g. the
+    mt19937 primary generator) stays inside [0, 1): it returns std::generate_canonical, whose
+    result the standard library guards (LWG 2524), or - if it accumulates the words itself - the
+    returned value is tested against 1 before it is returned."""
+    import re as _re
+    n = 0
+    for nm in db.find(r"^celeritas::GenerateCanonical::operator\(\)$"):
+        for f in db.get(nm):
+            if "Xorwow" in f.inst or "SequenceEngine" in f.inst:
+                continue            # specialisations: C13.8 decides GenerateCanonical32 exactly
+            rets = [e for (_b, _i, e) in f.events("return")]
+            if not rets:
+                continue
+            n += 1
+            ok = True
+            det = []
+            for e in rets:
+                calls = e.get("calls", [])
+                t = e.get("t", "")
+                direct = bool(calls) and all(c == "std::generate_canonical" for c in calls) \
+                    and t.lstrip().startswith("std::generate_canonical<")
+                guarded = False
+                if not direct:
+                    rv = sorted(local_refs(e.get("refs", [])))
+                    for br in f.branch_blocks(lambda c, _b: c.get("op") in (">=", "<", "==", ">", "<=")
+                                              and (c.get("rlit") in ("1", "1.0") or c.get("llit") in ("1", "1.0"))):
+                        c = f.blocks[br]["cond"]
+                        if set(local_refs(c.get("refs", []))) & set(rv):
+                            guarded = True
+                ok = ok and (direct or guarded)
+                det.append("std::generate_canonical" if direct else ("guarded against 1" if guarded else
+                                                                       "`%s` is returned without a test against 1" % t[:60]))
+            cx.ob("C15.5-canonical-default", "generic canonical generator [%s] stays below 1" %
+                  f.inst.split("<", 1)[1][:40], ok, "; ".join(det), short(f.loc),
+                  why="integer-to-float accumulation of the largest engine words rounds up to exactly 1; "
+                      "every inverse-CDF sampler built on it then reaches an excluded end point "
+                      "(log(0), the upper corner of a box, Bernoulli(1) false)")
+    cx.floor("instantiations of the generic GenerateCanonical", n, 1)
+
 def run(db, cx):
+    canonical_default(db, cx)
     selector_rules(db, cx)
     unit_vector_rules(db, cx)
     box_rules(db, cx)
